@@ -369,3 +369,698 @@ Proof.
       destruct (nth_error (p_refs p) (Z.to_nat n)); [unfold plen in Hn; lia|reflexivity].
     + apply loopback_nonneg.
 Qed.
+
+(* ================================================================== FFBuffer *)
+Lemma odd_mask1 v : Z.odd (mask 1 v) = Z.odd v.
+Proof.
+  rewrite <- !Z.bit0_odd. rewrite testbit_mask by lia. reflexivity.
+Qed.
+
+Lemma ff_run_snoc bd p evs e :
+  ff_run_state bd p (evs ++ [e]) = ff_step bd p (ff_run_state bd p evs) e.
+Proof. unfold ff_run_state. rewrite fold_left_app. reflexivity. Qed.
+
+Lemma assign_cat_ext refs : forall s v v',
+  (forall k, 0 <= k < Z.of_nat (length refs) -> Z.testbit v k = Z.testbit v' k) ->
+  assign_cat s refs v = assign_cat s refs v'.
+Proof.
+  induction refs as [|x rs IH]; intros s v v' H; cbn [assign_cat]; [reflexivity|].
+  rewrite <- !Z.bit0_odd, (H 0) by (cbn [length]; lia). apply IH. intros k Hk.
+  rewrite !Z.div2_spec, !Z.shiftr_spec by lia. apply H. cbn [length]; lia.
+Qed.
+
+(* the combinational buffer only looks at oe's bit 0 and at o's low bits *)
+Lemma buffer_comb_mask bd p o oe st : 
+  buffer_comb bd p (mask (plen p) o) (mask 1 oe) st = buffer_comb bd p o oe st.
+Proof.
+  assert (Hw : 0 <= plen p) by (unfold plen, zlen; lia).
+  assert (Ha : forall s v, assign_cat s (p_refs p) (Z.lxor (mask (plen p) v) (inv_mask (p_inv p))) =
+                           assign_cat s (p_refs p) (Z.lxor v (inv_mask (p_inv p)))).
+  { intros s v. apply assign_cat_ext. intros k Hk. rewrite !Z.lxor_spec, testbit_mask by lia.
+    unfold plen, zlen. destruct (k <? Z.of_nat (length (p_refs p))) eqn:E; [reflexivity|lia]. }
+  unfold buffer_comb. rewrite !xor_shortcut, odd_mask1, !Ha. reflexivity.
+Qed.
+
+(* one register per direction: an edge of o_domain loads o/oe, an edge of i_domain loads the inner buffer's i;
+   without the edge the register holds *)
+Lemma ff_step_o bd p s e : bd <> DIn ->
+  let s' := ff_step bd p s e in
+  if ev_eo e then f_o s' = mask (plen p) (ev_o e) /\ f_oe s' = mask 1 (ev_oe e)
+  else f_o s' = f_o s /\ f_oe s' = f_oe s.
+Proof.
+  intros Hbd. unfold ff_step, ff_edge. cbn [f_o f_oe].
+  assert (dir_eqb bd DIn = false) as -> by (destruct bd; auto; contradiction).
+  destruct (ev_eo e); cbn [andb negb]; auto.
+Qed.
+
+Lemma ff_step_i bd p s e : bd <> DOut -> length (p_inv p) = length (p_refs p) ->
+  let s' := ff_step bd p s e in
+  if ev_ei e then f_i s' = snd (buffer_comb bd p (f_o s) (f_oe s) (ev_st e))
+  else f_i s' = f_i s.
+Proof.
+  intros Hbd Hlen. unfold ff_step, ff_edge, ff_comb. cbn [f_i].
+  assert (dir_eqb bd DOut = false) as -> by (destruct bd; auto; contradiction).
+  destruct (ev_ei e); cbn [andb negb]; auto.
+  apply mask_small. apply buffer_i_range; auto.
+Qed.
+
+(* registers of the unused direction never move *)
+Lemma ff_step_unused bd p s e :
+  (bd = DIn -> f_o (ff_step bd p s e) = f_o s /\ f_oe (ff_step bd p s e) = f_oe s) /\
+  (bd = DOut -> f_i (ff_step bd p s e) = f_i s).
+Proof.
+  split; intros ->; unfold ff_step, ff_edge; cbn; rewrite ?andb_false_r; auto.
+Qed.
+
+(* what the port shows after an o_domain edge is the combinational buffer applied to the sampled o/oe *)
+Lemma ff_port_after_edge bd p evs e st : bd <> DIn -> ev_eo e = true ->
+  fst (ff_comb bd p (ff_run_state bd p (evs ++ [e])) st) = fst (buffer_comb bd p (ev_o e) (ev_oe e) st).
+Proof.
+  intros Hbd He. rewrite ff_run_snoc. pose proof (ff_step_o bd p (ff_run_state bd p evs) e Hbd) as H.
+  cbn zeta in H. rewrite He in H. destruct H as [Ho Hoe]. unfold ff_comb. rewrite Ho, Hoe, buffer_comb_mask.
+  reflexivity.
+Qed.
+
+Lemma ff_port_hold bd p evs e st : ev_eo e = false ->
+  fst (ff_comb bd p (ff_run_state bd p (evs ++ [e])) st) = fst (ff_comb bd p (ff_run_state bd p evs) st).
+Proof.
+  intros He. rewrite ff_run_snoc. unfold ff_comb, ff_step, ff_edge. rewrite He. cbn [andb f_o f_oe].
+  unfold buffer_comb. cbn [fst]. reflexivity.
+Qed.
+
+(* ================================================================== netlist: every I/O wire used once *)
+Definition ref_eq_dec : forall a b : ref, {a = b} + {a <> b}.
+Proof. decide equality; apply Nat.eq_dec. Defined.
+
+Lemma mem_ref_In r l : mem_ref r l = true <-> In r l.
+Proof.
+  induction l as [|x t IH]; simpl; [split; [discriminate|tauto]|].
+  rewrite orb_true_iff, IH, ref_eqb_eq. split; intros [H|H]; auto.
+Qed.
+
+Lemma nodup_app_iff {A} (a b : list A) :
+  NoDup (a ++ b) <-> NoDup a /\ NoDup b /\ (forall x, In x a -> ~ In x b).
+Proof.
+  induction a as [|x a IH]; simpl.
+  - split; [intros H; repeat split; auto; constructor|tauto].
+  - split.
+    + intros H. inversion H as [|? ? Hx Hr]; subst. apply IH in Hr. destruct Hr as (Ha & Hb & Hd).
+      repeat split; auto.
+      * constructor; auto. intros Hin. apply Hx. apply in_or_app; auto.
+      * intros y [->|Hy]; [intros Hin; apply Hx; apply in_or_app; auto|apply Hd; auto].
+    + intros (Ha & Hb & Hd). inversion Ha as [|? ? Hx Hr]; subst. constructor.
+      * intros Hin. apply in_app_or in Hin. destruct Hin as [Hin|Hin]; [auto|]. apply (Hd x); auto.
+      * apply IH. repeat split; auto.
+Qed.
+
+Lemma use_nets_spec nets : forall used,
+  match use_nets used nets with
+  | Ok u => u = rev nets ++ used /\ NoDup nets /\ (forall r, In r nets -> ~ In r used)
+  | Err e => e = EConflict /\ ~ (NoDup nets /\ (forall r, In r nets -> ~ In r used))
+  end.
+Proof.
+  induction nets as [|n t IH]; intros used; cbn [use_nets].
+  - repeat split; auto. constructor.
+  - destruct (mem_ref n used) eqn:E.
+    + split; auto. intros [_ Hd]. apply (Hd n); [left; auto|]. apply mem_ref_In; auto.
+    + assert (Hn : ~ In n used) by (intros H; apply mem_ref_In in H; congruence).
+      specialize (IH (n :: used)). destruct (use_nets (n :: used) t) as [u|e].
+      * destruct IH as (-> & Hnd & Hd). repeat split.
+        -- cbn [rev]. rewrite <- app_assoc. reflexivity.
+        -- constructor; auto. intros Hin. apply (Hd n Hin). left; auto.
+        -- intros r [->|Hr]; auto. intros Hin. apply (Hd r Hr). right; auto.
+      * destruct IH as (-> & Hbad). split; auto. intros [Hnd Hd]. apply Hbad.
+        inversion Hnd as [|? ? Hx Hr]; subst. split; auto.
+        intros r Hr' [<-|Hin]; [contradiction|]. apply (Hd r); [right; auto|auto].
+Qed.
+
+Lemma use_nets_app a : forall used b,
+  use_nets used (a ++ b) = bind (use_nets used a) (fun u => use_nets u b).
+Proof.
+  induction a as [|x a IH]; intros used b; cbn [use_nets app bind]; [reflexivity|].
+  destruct (mem_ref x used); [reflexivity|apply IH].
+Qed.
+
+(* threading the used-set through the cells = one pass over all their wires *)
+Lemma emit_cells_flat cs : forall used, emit_cells used cs = use_nets used (flat_map c_port cs).
+Proof.
+  induction cs as [|c r IH]; intros used; cbn [emit_cells flat_map]; [reflexivity|].
+  rewrite use_nets_app. destruct (use_nets used (c_port c)); cbn [bind]; auto.
+Qed.
+
+Definition all_wires (cs : list cell) : list ref := flat_map c_port cs.
+
+Lemma build_netlist_spec bufs :
+  match build_netlist bufs with
+  | Ok cells => cells = netlist_cells bufs /\ NoDup (all_wires cells) /\
+                (forall r, In r (all_wires cells) -> count_occ ref_eq_dec (all_wires cells) r = 1%nat)
+  | Err e => e = EConflict /\ ~ NoDup (all_wires (netlist_cells bufs))
+  end.
+Proof.
+  unfold build_netlist. rewrite emit_cells_flat.
+  pose proof (use_nets_spec (flat_map c_port (netlist_cells bufs)) []) as H.
+  destruct (use_nets [] (flat_map c_port (netlist_cells bufs))) as [u|e]; cbn [bind].
+  - destruct H as (_ & Hnd & _). split; [reflexivity|]. split; [exact Hnd|].
+    intros r Hr. apply NoDup_count_occ'; assumption.
+  - destruct H as (-> & Hbad). split; [reflexivity|]. intros Hnd. apply Hbad. split; [exact Hnd|].
+    intros r _ [].
+Qed.
+
+(* the wires a generic Buffer uses: the whole port; for a differential port also the n half unless the
+   buffer is an Input buffer (only the p half gets a cell then) *)
+Definition used_wires (bd : dir) (p : port) : list ref :=
+  match p_kind p with
+  | KSim => []
+  | KSingle => p_refs p
+  | KDiff => match bd with DIn => p_refs p | _ => p_refs p ++ p_nrefs p end
+  end.
+
+Lemma buffer_cells_wires bd p : all_wires (fst (buffer_cells bd p)) = used_wires bd p.
+Proof.
+  unfold buffer_cells, used_wires, all_wires. destruct (p_kind p), bd; cbn; rewrite ?app_nil_r; reflexivity.
+Qed.
+
+Lemma netlist_wires bufs :
+  all_wires (netlist_cells bufs) = flat_map (fun bp => used_wires (fst bp) (snd bp)) bufs.
+Proof.
+  unfold netlist_cells, all_wires. induction bufs as [|bp r IH]; cbn [flat_map]; [reflexivity|].
+  rewrite flat_map_app. fold (all_wires (fst (buffer_cells (fst bp) (snd bp)))).
+  rewrite buffer_cells_wires, IH. reflexivity.
+Qed.
+
+(* cell structure: the pad side is the raw port, direction as requested, n half always a pure output *)
+Lemma buffer_cells_shape bd p :
+  match p_kind p with
+  | KSim => fst (buffer_cells bd p) = []
+  | KSingle => map c_port (fst (buffer_cells bd p)) = [p_refs p] /\ map c_dir (fst (buffer_cells bd p)) = [bd]
+  | KDiff => match bd with
+             | DIn => map c_port (fst (buffer_cells bd p)) = [p_refs p] /\ map c_dir (fst (buffer_cells bd p)) = [DIn]
+             | _ => map c_port (fst (buffer_cells bd p)) = [p_refs p; p_nrefs p] /\
+                    map c_dir (fst (buffer_cells bd p)) = [bd; DOut]
+             end
+  end.
+Proof. unfold buffer_cells. destruct (p_kind p), bd; cbn; auto. Qed.
+
+Lemma obit_at_none r port : forall obs, ~ In r port -> obit_at r port obs = None.
+Proof.
+  induction port as [|x t IH]; intros obs Hn; [reflexivity|]. destruct obs as [|b bt]; [reflexivity|].
+  cbn [obit_at]. rewrite ref_eqb_neq by (intros ->; apply Hn; left; auto). apply IH. intros H; apply Hn; right; auto.
+Qed.
+
+Lemma obit_at_nth port : forall inv j k r, NoDup port -> length inv = length port ->
+  nth_error port k = Some r ->
+  obit_at r port (obits_from j inv) = Some (OB (j + k) (nthb inv k)).
+Proof.
+  induction port as [|x t IH]; intros inv j k r Hnd Hlen Hk; [destruct k; discriminate|].
+  destruct inv as [|b bt]; [discriminate|]. cbn [obits_from obit_at].
+  inversion Hnd as [|? ? Hx Ht]; subst. destruct k as [|k]; cbn [nth_error] in Hk.
+  - inversion Hk; subst. rewrite ref_eqb_refl. rewrite Nat.add_0_r. reflexivity.
+  - rewrite ref_eqb_neq.
+    + rewrite (IH bt (S j) k r Ht); [|cbn [length] in Hlen; lia|exact Hk].
+      unfold nthb. cbn [nth_error]. f_equal. f_equal. lia.
+    + intros <-. apply Hx. eapply nth_error_In; eauto.
+Qed.
+
+Lemma obit_at_neg r port obs :
+  obit_at r port (neg_obits obs) = option_map (fun x => OB (ob_k x) (negb (ob_inv x))) (obit_at r port obs).
+Proof.
+  revert obs. induction port as [|x t IH]; intros obs; [reflexivity|]. destruct obs as [|b bt]; [reflexivity|].
+  cbn [neg_obits map obit_at]. destruct (ref_eqb r x); [reflexivity|apply IH].
+Qed.
+
+(* inversion on the fabric side, output: the p (or only) wire k carries o[k] xor invert[k] while enabled,
+   the n wire its complement, nothing is driven while disabled or by an Input buffer *)
+Lemma pad_drive_p bd p o oe k r : p_kind p <> KSim -> bd <> DIn ->
+  NoDup (p_refs p) -> length (p_inv p) = length (p_refs p) -> nth_error (p_refs p) k = Some r ->
+  pad_drive (fst (buffer_cells bd p)) o oe r =
+  if oe then Some (xorb (Z.testbit o (Z.of_nat k)) (nthb (p_inv p) k)) else None.
+Proof.
+  intros Hk Hbd Hnd Hlen Hn. pose proof (obit_at_nth (p_refs p) (p_inv p) 0 k r Hnd Hlen Hn) as Hob.
+  unfold buffer_cells. destruct (p_kind p); [contradiction| |]; destruct bd; try contradiction;
+    cbn [fst pad_drive c_port c_o]; rewrite Hob; reflexivity.
+Qed.
+
+Lemma pad_drive_n bd p o oe k r : p_kind p = KDiff -> bd <> DIn ->
+  NoDup (p_refs p ++ p_nrefs p) -> length (p_inv p) = length (p_refs p) ->
+  length (p_nrefs p) = length (p_refs p) -> nth_error (p_nrefs p) k = Some r ->
+  pad_drive (fst (buffer_cells bd p)) o oe r =
+  if oe then Some (negb (xorb (Z.testbit o (Z.of_nat k)) (nthb (p_inv p) k))) else None.
+Proof.
+  intros Hk Hbd Hnd Hlen Hlen2 Hn. apply nodup_app_iff in Hnd. destruct Hnd as (Hp & Hnn & Hd).
+  assert (Hnotp : ~ In r (p_refs p)).
+  { intros Hin. apply (Hd r Hin). eapply nth_error_In; eauto. }
+  pose proof (obit_at_nth (p_nrefs p) (p_inv p) 0 k r Hnn ltac:(lia) Hn) as Hob.
+  unfold buffer_cells. rewrite Hk. destruct bd; try contradiction;
+    cbn [fst pad_drive c_port c_o]; rewrite (obit_at_none r (p_refs p)) by exact Hnotp;
+    rewrite obit_at_neg, Hob; cbn [option_map ob_k ob_inv]; destruct oe; try reflexivity;
+    rewrite negb_xorb_r; reflexivity.
+Qed.
+
+Lemma pad_drive_input p o oe r : pad_drive (fst (buffer_cells DIn p)) o oe r = None.
+Proof. unfold buffer_cells. destruct (p_kind p); cbn; destruct (p_refs p); reflexivity. Qed.
+
+(* inversion on the fabric side, input: i[k] = pad value of wire k of the (p half of the) port xor invert[k] *)
+Lemma ibits_from_nth inv : forall j k, (k < length inv)%nat ->
+  nth_error (ibits_from j inv) k = Some (IB 0 (j + k) (nthb inv k)).
+Proof.
+  induction inv as [|b t IH]; intros j k Hk; [cbn in Hk; lia|]. destruct k as [|k]; cbn [ibits_from nth_error].
+  - rewrite Nat.add_0_r. reflexivity.
+  - rewrite IH by (cbn [length] in Hk; lia). unfold nthb. cbn [nth_error]. f_equal. f_equal. lia.
+Qed.
+
+Lemma ibits_from_length inv j : length (ibits_from j inv) = length inv.
+Proof. revert j. induction inv as [|b t IH]; intros j; cbn; auto. Qed.
+
+Lemma buffer_cells_i bd p pad k r : p_kind p <> KSim -> bd <> DOut ->
+  length (p_inv p) = length (p_refs p) -> nth_error (p_refs p) k = Some r ->
+  length (snd (buffer_cells bd p)) = length (p_refs p) /\
+  exists b, nth_error (snd (buffer_cells bd p)) k = Some b /\
+            ibit_value (fst (buffer_cells bd p)) pad b = xorb (pad r) (nthb (p_inv p) k).
+Proof.
+  intros Hk Hbd Hlen Hn.
+  assert (Hlt : (k < length (p_inv p))%nat) by (rewrite Hlen; apply nth_error_Some; congruence).
+  pose proof (ibits_from_nth (p_inv p) 0 k Hlt) as Hib. pose proof (ibits_from_length (p_inv p) 0) as Hil.
+  unfold buffer_cells. destruct (p_kind p); [contradiction| |]; destruct bd; try contradiction; cbn [fst snd];
+    (split; [lia|]); eexists; (split; [exact Hib|]); unfold ibit_value; cbn [ib_cell ib_bit ib_inv nth_error c_port Nat.add];
+    rewrite Hn; reflexivity.
+Qed.
+
+Lemma buffer_cells_no_i p : snd (buffer_cells DOut p) = [].
+Proof. unfold buffer_cells. destruct (p_kind p); reflexivity. Qed.
+
+(* ================================================================== Python slicing *)
+Lemma slice_indices_bounds n k a b s : 0 <= n -> slice_indices n k = Ok (a, b, s) ->
+  s <> 0 /\ (0 < s -> 0 <= a <= n /\ 0 <= b <= n) /\ (s < 0 -> -1 <= a < n /\ -1 <= b < n).
+Proof.
+  intros Hn. unfold slice_indices, clamp_index.
+  destruct (sl_step k) as [st|]; destruct (sl_start k) as [x|]; destruct (sl_stop k) as [y|];
+    repeat match goal with |- context [if ?c then _ else _] => destruct c eqn:? end;
+    intros H; inversion H; subst; lia.
+Qed.
+
+Lemma slice_indices_err n k e : slice_indices n k = Err e -> e = EValue /\ sl_step k = Some 0.
+Proof.
+  unfold slice_indices. destruct (sl_step k) as [st|]; cbn.
+  - destruct (Z.eqb_spec st 0) as [->|]; [intros H; inversion H; auto|discriminate].
+  - discriminate.
+Qed.
+
+Lemma range_len_nonneg a b s : s <> 0 -> 0 <= range_len a b s.
+Proof.
+  intros Hs. unfold range_len. destruct (0 <? s) eqn:E.
+  - destruct (a <? b) eqn:E2; [|lia]. assert (0 <= (b - a - 1) / s) by (apply Z.div_pos; lia). lia.
+  - destruct (b <? a) eqn:E2; [|lia]. assert (0 <= (a - b - 1) / - s) by (apply Z.div_pos; lia). lia.
+Qed.
+
+Lemma range_list_length a b s : length (range_list a b s) = Z.to_nat (range_len a b s).
+Proof. unfold range_list. rewrite map_length, seq_length. reflexivity. Qed.
+
+Lemma range_list_nth a b s j : (j < Z.to_nat (range_len a b s))%nat ->
+  nth_error (range_list a b s) j = Some (a + Z.of_nat j * s).
+Proof.
+  intros Hj. unfold range_list. rewrite nth_error_map, nth_error_nth' with (d := 0%nat) by (rewrite seq_length; exact Hj).
+  rewrite seq_nth by exact Hj. reflexivity.
+Qed.
+
+(* every index produced by range over slice.indices(n) is a valid position *)
+Lemma range_in_bounds n k a b s j : 0 <= n -> slice_indices n k = Ok (a, b, s) ->
+  0 <= j < range_len a b s -> 0 <= a + j * s < n.
+Proof.
+  intros Hn Hk Hj. destruct (slice_indices_bounds n k a b s Hn Hk) as (Hs & Hp & Hm).
+  unfold range_len in Hj. destruct (0 <? s) eqn:E.
+  - destruct (Hp ltac:(lia)) as [Ha Hb]. destruct (a <? b) eqn:E2; [|lia].
+    pose proof (Z.mul_div_le (b - a - 1) s ltac:(lia)) as Hd.
+    assert (j * s <= (b - a - 1) / s * s) by nia. nia.
+  - destruct (Hm ltac:(lia)) as [Ha Hb]. destruct (b <? a) eqn:E2; [|lia].
+    pose proof (Z.mul_div_le (a - b - 1) (- s) ltac:(lia)) as Hd.
+    assert (j * (- s) <= (a - b - 1) / (- s) * (- s)) by nia. nia.
+Qed.
+
+Definition valid_idx {A} (l : list A) (idxs : list Z) : Prop := Forall (fun i => 0 <= i < zlen l) idxs.
+
+Lemma range_list_valid {A} (l : list A) k a b s : slice_indices (zlen l) k = Ok (a, b, s) ->
+  valid_idx l (range_list a b s).
+Proof.
+  intros Hk. apply Forall_forall. intros i Hi. apply In_nth_error in Hi. destruct Hi as [j Hj].
+  assert (Hlt : (j < Z.to_nat (range_len a b s))%nat).
+  { rewrite <- range_list_length. apply nth_error_Some. congruence. }
+  rewrite range_list_nth in Hj by exact Hlt. inversion Hj; subst.
+  apply (range_in_bounds (zlen l) k a b s); [unfold zlen; lia|exact Hk|lia].
+Qed.
+
+Lemma sel_nil {A} idxs : sel (@nil A) idxs = [].
+Proof.
+  unfold sel. induction idxs as [|i t IH]; cbn [flat_map]; [reflexivity|]. rewrite IH.
+  destruct (i <? 0); [reflexivity|]. destruct (Z.to_nat i); reflexivity.
+Qed.
+
+Lemma sel_cons_valid {A} (l : list A) i t : 0 <= i < zlen l ->
+  exists x, nth_error l (Z.to_nat i) = Some x /\ sel l (i :: t) = x :: sel l t.
+Proof.
+  intros Hi. unfold sel. cbn [flat_map]. destruct (i <? 0) eqn:E; [lia|].
+  destruct (nth_error l (Z.to_nat i)) as [x|] eqn:E2.
+  - exists x. split; reflexivity.
+  - apply nth_error_None in E2. unfold zlen in Hi. lia.
+Qed.
+
+Lemma sel_length {A} (l : list A) idxs : valid_idx l idxs -> length (sel l idxs) = length idxs.
+Proof.
+  induction 1 as [|i t Hi Ht IH]; [reflexivity|].
+  destruct (sel_cons_valid l i t Hi) as (x & _ & ->). cbn [length]. rewrite IH. reflexivity.
+Qed.
+
+(* element j of the selection is the element at position idxs[j] *)
+Lemma sel_nth {A} (l : list A) idxs : valid_idx l idxs -> forall j,
+  nth_error (sel l idxs) j =
+  match nth_error idxs j with Some i => nth_error l (Z.to_nat i) | None => None end.
+Proof.
+  induction 1 as [|i t Hi Ht IH]; intros j.
+  - destruct j; reflexivity.
+  - destruct (sel_cons_valid l i t Hi) as (x & Hx & ->). destruct j as [|j]; cbn [nth_error]; [auto|apply IH].
+Qed.
+
+Lemma sel_map {A B} (f : A -> B) (l : list A) idxs : sel (map f l) idxs = map f (sel l idxs).
+Proof.
+  unfold sel. induction idxs as [|i t IH]; cbn [flat_map]; [reflexivity|]. rewrite map_app, IH. f_equal.
+  destruct (i <? 0); [reflexivity|]. rewrite nth_error_map. destruct (nth_error l (Z.to_nat i)); reflexivity.
+Qed.
+
+Lemma skipn_nth_cons {A} (l : list A) : forall n x, nth_error l n = Some x -> skipn n l = x :: skipn (S n) l.
+Proof.
+  induction l as [|y t IH]; intros n x H; [destruct n; discriminate|].
+  destruct n as [|n]; cbn [nth_error] in H.
+  - inversion H; reflexivity.
+  - cbn [skipn]. rewrite (IH n x H). reflexivity.
+Qed.
+
+Lemma sel_consecutive {A} (l : list A) a : forall m j, (a + j + m <= length l)%nat ->
+  sel l (map (fun k => Z.of_nat a + Z.of_nat k * 1) (seq j m)) = firstn m (skipn (a + j) l).
+Proof.
+  induction m as [|m IH]; intros j Hle; [reflexivity|]. cbn [seq map].
+  assert (Hi : 0 <= Z.of_nat a + Z.of_nat j * 1 < zlen l) by (unfold zlen; lia).
+  destruct (sel_cons_valid l _ (map (fun k => Z.of_nat a + Z.of_nat k * 1) (seq (S j) m)) Hi) as (x & Hx & ->).
+  replace (Z.to_nat (Z.of_nat a + Z.of_nat j * 1)) with (a + j)%nat in Hx by lia.
+  rewrite (skipn_nth_cons l _ x Hx). cbn [firstn]. f_equal. rewrite IH by lia. f_equal. f_equal. lia.
+Qed.
+
+(* Slice(self, a, b) is the step-1 case of the same selection *)
+Lemma slice_is_sel {A} (l : list A) a b : 0 <= a <= b -> b <= zlen l ->
+  firstn (Z.to_nat (b - a)) (skipn (Z.to_nat a) l) = sel l (range_list a b 1).
+Proof.
+  intros Hab Hb. unfold range_list.
+  assert (Hlen : range_len a b 1 = b - a).
+  { unfold range_len. cbn [Z.ltb Z.compare]. destruct (a <? b) eqn:E; [|lia]. rewrite Z.div_1_r. lia. }
+  rewrite Hlen.
+  replace (map (fun k : nat => a + Z.of_nat k * 1) (seq 0 (Z.to_nat (b - a))))
+    with (map (fun k : nat => Z.of_nat (Z.to_nat a) + Z.of_nat k * 1) (seq 0 (Z.to_nat (b - a))))
+    by (rewrite Z2Nat.id by lia; reflexivity).
+  rewrite (sel_consecutive l (Z.to_nat a) (Z.to_nat (b - a)) 0) by (unfold zlen in Hb; lia).
+  rewrite Nat.add_0_r. reflexivity.
+Qed.
+
+(* Value/IOValue slicing: accepted keys give exactly the Python tuple slice; the only difference is the
+   IndexError for step 1 with start > stop (x[3:1]), where a tuple gives () *)
+Lemma hdl_slice_spec {A} (l : list A) k :
+  match slice_indices (zlen l) k with
+  | Err e => hdl_slice l k = Err e /\ tuple_slice l k = Err e
+  | Ok (a, b, s) =>
+      tuple_slice l k = Ok (sel l (range_list a b s)) /\
+      (if (s =? 1) && (b <? a) then hdl_slice l k = Err EIndex /\ range_list a b s = []
+       else hdl_slice l k = Ok (sel l (range_list a b s)))
+  end.
+Proof.
+  unfold hdl_slice, tuple_slice. destruct (slice_indices (zlen l) k) as [[[a b] s]|e] eqn:Hk; cbn [bind]; auto.
+  split; [reflexivity|]. destruct (Z.eqb_spec s 1) as [->|Hs]; cbn [andb]; [|reflexivity].
+  destruct (slice_indices_bounds (zlen l) k a b 1 ltac:(unfold zlen; lia) Hk) as (_ & Hp & _).
+  destruct (Hp ltac:(lia)) as [Ha Hb]. destruct (b <? a) eqn:E.
+  - split; [reflexivity|]. unfold range_list, range_len. cbn [Z.ltb Z.compare].
+    destruct (a <? b) eqn:E2; [lia|reflexivity].
+  - rewrite slice_is_sel by lia. reflexivity.
+Qed.
+
+Lemma firstn1_skipn {A} (l : list A) j x : nth_error l j = Some x -> firstn 1 (skipn j l) = [x].
+Proof. intros H. rewrite (skipn_nth_cons l j x H). reflexivity. Qed.
+
+Lemma hdl_index_spec {A} (l : list A) i :
+  let n := zlen l in
+  if (i <? - n) || (n <=? i) then hdl_index l i = Err EIndex
+  else exists x, nth_error l (Z.to_nat (if i <? 0 then i + n else i)) = Some x /\ hdl_index l i = Ok [x].
+Proof.
+  intros n. unfold hdl_index. fold n. destruct ((i <? - n) || (n <=? i)) eqn:E; [reflexivity|].
+  set (j := if i <? 0 then i + n else i). assert (Hj : 0 <= j < n) by (unfold j; destruct (i <? 0) eqn:E2; lia).
+  destruct (nth_error l (Z.to_nat j)) as [x|] eqn:E2.
+  - exists x. split; [reflexivity|]. rewrite (firstn1_skipn l _ x E2). reflexivity.
+  - apply nth_error_None in E2. unfold n, zlen in Hj. lia.
+Qed.
+
+Lemma tuple_index_spec {A} (l : list A) i :
+  let n := zlen l in
+  if (i <? - n) || (n <=? i) then tuple_index l i = Err EIndex
+  else exists x, nth_error l (Z.to_nat (if i <? 0 then i + n else i)) = Some x /\ tuple_index l i = Ok x.
+Proof.
+  intros n. unfold tuple_index. fold n. destruct ((i <? - n) || (n <=? i)) eqn:E.
+  - destruct (i <? 0) eqn:E2.
+    + replace ((i + n <? 0) || (n <=? i + n)) with true by lia. reflexivity.
+    + replace ((i <? 0) || (n <=? i)) with true by lia. reflexivity.
+  - set (j := if i <? 0 then i + n else i). assert (Hj : 0 <= j < n) by (unfold j; destruct (i <? 0) eqn:E2; lia).
+    replace ((j <? 0) || (n <=? j)) with false by lia.
+    destruct (nth_error l (Z.to_nat j)) as [x|] eqn:E2.
+    + exists x. split; reflexivity.
+    + apply nth_error_None in E2. unfold n, zlen in Hj. lia.
+Qed.
+
+(* ================================================================== port algebra *)
+Definition wf (p : port) : Prop :=
+  length (p_inv p) = length (p_refs p) /\
+  match p_kind p with KDiff => length (p_nrefs p) = length (p_refs p) | _ => p_nrefs p = [] end.
+
+Lemma mk_single_ok io inv d : length inv = length io -> mk_single io inv d = Ok (Port KSingle io [] inv d).
+Proof. intros H. unfold mk_single. rewrite H, Nat.eqb_refl. reflexivity. Qed.
+
+Lemma mk_diff_ok pr nr inv d : length nr = length pr -> length inv = length pr ->
+  mk_diff pr nr inv d = Ok (Port KDiff pr nr inv d).
+Proof. intros H1 H2. unfold mk_diff. rewrite H1, H2, !Nat.eqb_refl. reflexivity. Qed.
+
+(* the constructors' length checks can never fire on parts of equal length: one lemma for the three kinds *)
+Definition mk_port (k : kind) (r nr : list ref) (inv : list bool) (d : dir) : res port :=
+  match k with KSim => Ok (Port KSim r [] inv d) | KSingle => mk_single r inv d | KDiff => mk_diff r nr inv d end.
+
+Lemma mk_port_ok k r nr inv d : length inv = length r ->
+  match k with KDiff => length nr = length r | _ => nr = [] end ->
+  mk_port k r nr inv d = Ok (Port k r nr inv d) /\ wf (Port k r nr inv d).
+Proof.
+  intros H1 H2. unfold wf; cbn [p_inv p_refs p_kind p_nrefs]. destruct k; cbn [mk_port]; subst.
+  - auto.
+  - rewrite mk_single_ok by auto. auto.
+  - rewrite mk_diff_ok by auto. auto.
+Qed.
+
+Lemma mk_base_wf b x p : mk_base b x = Ok p -> wf p.
+Proof.
+  destruct x as [d w inv|d w inv|d w inv]; cbn [mk_base]; unfold mk_sim, mk_single, mk_diff, base_refs;
+    rewrite ?map_length, ?seq_length.
+  - destruct (Nat.eqb_spec (length inv) w); [|discriminate]. intros H; inversion H; subst.
+    unfold wf; cbn. rewrite map_length, seq_length. auto.
+  - destruct (Nat.eqb_spec (length inv) w); [|discriminate]. intros H; inversion H; subst.
+    unfold wf; cbn. rewrite map_length, seq_length. auto.
+  - rewrite Nat.eqb_refl. cbn [negb]. destruct (Nat.eqb_spec (length inv) w); [|discriminate].
+    intros H; inversion H; subst. unfold wf; cbn. rewrite !map_length, !seq_length. auto.
+Qed.
+
+(* ~p: same wires, same direction, every flag flipped *)
+Lemma port_invert_spec p : wf p ->
+  port_invert p = Ok (Port (p_kind p) (p_refs p) (p_nrefs p) (map negb (p_inv p)) (p_dir p)) /\
+  wf (Port (p_kind p) (p_refs p) (p_nrefs p) (map negb (p_inv p)) (p_dir p)).
+Proof.
+  intros [H1 H2]. 
+  destruct (mk_port_ok (p_kind p) (p_refs p) (p_nrefs p) (map negb (p_inv p)) (p_dir p)) as [Hm Hw];
+    [rewrite map_length; exact H1|exact H2|].
+  split; [|exact Hw]. rewrite <- Hm. unfold port_invert, mk_port. destruct (p_kind p); try reflexivity.
+Qed.
+
+Lemma port_invert_involutive p : wf p -> bind (port_invert p) port_invert = Ok p.
+Proof.
+  intros Hw. destruct (port_invert_spec p Hw) as [-> Hw2]. cbn [bind].
+  destruct (port_invert_spec _ Hw2) as [-> _]. cbn [p_kind p_refs p_nrefs p_inv p_dir].
+  rewrite map_map. rewrite (map_ext _ (fun x => x)) by (intros; apply negb_involutive). rewrite map_id.
+  destruct p; reflexivity.
+Qed.
+
+(* p + q *)
+Lemma port_add_spec p q : wf p -> wf q ->
+  if negb (kind_eqb (p_kind p) (p_kind q)) then port_add p q = Err EType
+  else match dir_and (p_dir p) (p_dir q) with
+       | Err e => port_add p q = Err e
+       | Ok d => let r := Port (p_kind p) (p_refs p ++ p_refs q) (p_nrefs p ++ p_nrefs q) (p_inv p ++ p_inv q) d in
+                 port_add p q = Ok r /\ wf r
+       end.
+Proof.
+  intros [Hp1 Hp2] [Hq1 Hq2]. unfold port_add. destruct (kind_eqb (p_kind p) (p_kind q)) eqn:Ek; cbn [negb]; auto.
+  destruct (dir_and (p_dir p) (p_dir q)) as [d|e]; cbn [bind]; auto. cbn zeta.
+  assert (Hk : p_kind q = p_kind p) by (destruct (p_kind p), (p_kind q); auto; discriminate).
+  rewrite Hk in Hq2.
+  destruct (mk_port_ok (p_kind p) (p_refs p ++ p_refs q) (p_nrefs p ++ p_nrefs q) (p_inv p ++ p_inv q) d) as [Hm Hw].
+  - rewrite !app_length. lia.
+  - destruct (p_kind p); rewrite ?Hp2, ?Hq2, ?app_length; auto; lia.
+  - split; [|exact Hw]. rewrite <- Hm. unfold mk_port. destruct (p_kind p); reflexivity.
+Qed.
+
+(* p[i] *)
+Lemma port_index_spec p i : wf p ->
+  let n := plen p in
+  if (i <? - n) || (n <=? i) then port_index p i = Err EIndex
+  else let j := Z.to_nat (if i <? 0 then i + n else i) in
+       exists r b, nth_error (p_refs p) j = Some r /\ nth_error (p_inv p) j = Some b /\
+         let q := Port (p_kind p) [r] (match nth_error (p_nrefs p) j with Some x => [x] | None => [] end) [b] (p_dir p) in
+         port_index p i = Ok q /\ wf q.
+Proof.
+  intros [H1 H2] n. unfold n, plen.
+  assert (Hzi : zlen (p_inv p) = zlen (p_refs p)) by (unfold zlen; rewrite H1; reflexivity).
+  pose proof (hdl_index_spec (p_refs p) i) as Hr. pose proof (tuple_index_spec (p_inv p) i) as Hi.
+  pose proof (hdl_index_spec (p_nrefs p) i) as Hn. cbn zeta in Hr, Hi, Hn. rewrite Hzi in Hi.
+  destruct ((i <? - zlen (p_refs p)) || (zlen (p_refs p) <=? i)) eqn:E.
+  - unfold port_index. rewrite Hr. destruct (p_kind p); reflexivity.
+  - destruct Hr as (r & Hr1 & Hr2). destruct Hi as (b & Hi1 & Hi2). exists r, b. cbn zeta.
+    split; [exact Hr1|]. split; [exact Hi1|]. unfold port_index. rewrite Hr2, Hi2.
+    destruct (p_kind p) eqn:Ek; cbn [bind].
+    + rewrite H2. destruct (Z.to_nat _); cbn [nth_error]; (split; [reflexivity|unfold wf; cbn; auto]).
+    + rewrite H2. replace (nth_error [] _) with (@None ref) by (destruct (Z.to_nat _); reflexivity).
+      rewrite mk_single_ok by reflexivity. cbn. split; [reflexivity|unfold wf; cbn; auto].
+    + assert (Hzn : zlen (p_nrefs p) = zlen (p_refs p)) by (unfold zlen; rewrite H2; reflexivity).
+      rewrite Hzn, E in Hn. destruct Hn as (x & Hn1 & Hn2). rewrite Hn2, Hn1. cbn [bind].
+      rewrite mk_diff_ok by reflexivity. cbn. split; [reflexivity|unfold wf; cbn; auto].
+Qed.
+
+(* p[a:b:s] *)
+Lemma port_slice_spec p k : wf p ->
+  match slice_indices (plen p) k with
+  | Err e => port_slice p k = Err e
+  | Ok (a, b, s) =>
+      if (s =? 1) && (b <? a) then port_slice p k = Err EIndex
+      else let idx := range_list a b s in
+           let q := Port (p_kind p) (sel (p_refs p) idx) (sel (p_nrefs p) idx) (sel (p_inv p) idx) (p_dir p) in
+           port_slice p k = Ok q /\ wf q /\ valid_idx (p_refs p) idx /\ plen q = range_len a b s
+  end.
+Proof.
+  intros [H1 H2]. unfold plen.
+  assert (Hzi : zlen (p_inv p) = zlen (p_refs p)) by (unfold zlen; rewrite H1; reflexivity).
+  pose proof (hdl_slice_spec (p_refs p) k) as Hr. pose proof (hdl_slice_spec (p_inv p) k) as Hi.
+  pose proof (hdl_slice_spec (p_nrefs p) k) as Hn. rewrite Hzi in Hi.
+  destruct (slice_indices (zlen (p_refs p)) k) as [[[a b] s]|e] eqn:Hk.
+  - destruct Hr as [_ Hr]. destruct Hi as [Hi _].
+    destruct ((s =? 1) && (b <? a)) eqn:E.
+    + destruct Hr as [Hr _]. unfold port_slice. rewrite Hr. destruct (p_kind p); reflexivity.
+    + cbn zeta. set (idx := range_list a b s) in *.
+      assert (Hv : valid_idx (p_refs p) idx) by (apply (range_list_valid _ k); exact Hk).
+      assert (Hvi : valid_idx (p_inv p) idx) by (apply (range_list_valid _ k); rewrite Hzi; exact Hk).
+      assert (Hl1 : length (sel (p_inv p) idx) = length (sel (p_refs p) idx)) by (rewrite !sel_length; auto).
+      assert (Hplen : zlen (sel (p_refs p) idx) = range_len a b s).
+      { unfold zlen. rewrite sel_length by auto. unfold idx. rewrite range_list_length.
+        assert (H0 : 0 <= zlen (p_refs p)) by (unfold zlen; lia).
+        destruct (slice_indices_bounds (zlen (p_refs p)) k a b s H0 Hk) as (Hs & _).
+        pose proof (range_len_nonneg a b s Hs). lia. }
+      destruct (mk_port_ok (p_kind p) (sel (p_refs p) idx) (sel (p_nrefs p) idx) (sel (p_inv p) idx) (p_dir p)) as [Hm Hw].
+      * exact Hl1.
+      * destruct (p_kind p) eqn:Ek; try (rewrite H2; apply sel_nil).
+        assert (Hvn : valid_idx (p_nrefs p) idx).
+        { apply (range_list_valid _ k). unfold zlen. rewrite H2. exact Hk. }
+        rewrite !sel_length; auto.
+      * split; [|split; [exact Hw|split; [exact Hv|exact Hplen]]]. rewrite <- Hm.
+        unfold port_slice, mk_port. rewrite Hr, Hi. destruct (p_kind p) eqn:Ek; cbn [bind].
+        -- reflexivity.
+        -- reflexivity.
+        -- assert (Hzn : zlen (p_nrefs p) = zlen (p_refs p)) by (unfold zlen; rewrite H2; reflexivity).
+           rewrite Hzn, Hk in Hn. destruct Hn as [_ Hn]. rewrite E in Hn. rewrite Hn. reflexivity.
+  - destruct Hr as [Hr _]. unfold port_slice. rewrite Hr. destruct (p_kind p); reflexivity.
+Qed.
+
+(* every accepted expression yields a well-formed port *)
+Lemma peval_wf env : Forall wf env -> forall e p, peval env e = Ok p -> wf p.
+Proof.
+  intros Henv. induction e as [b|e IH i|e IH k|a IHa b IHb|e IH]; intros p; cbn [peval].
+  - destruct (nth_error env b) as [q|] eqn:E; [|discriminate]. intros H; inversion H; subst.
+    eapply Forall_forall; [exact Henv|]. eapply nth_error_In; eauto.
+  - destruct (peval env e) as [q|]; [|discriminate]. cbn [bind]. intros H. specialize (IH q eq_refl).
+    pose proof (port_index_spec q i IH) as Hs. cbn zeta in Hs.
+    destruct ((i <? - plen q) || (plen q <=? i)); [congruence|].
+    destruct Hs as (r & b & _ & _ & Hq & Hw). rewrite Hq in H. inversion H; subst. exact Hw.
+  - destruct (peval env e) as [q|]; [|discriminate]. cbn [bind]. intros H. specialize (IH q eq_refl).
+    pose proof (port_slice_spec q k IH) as Hs. destruct (slice_indices (plen q) k) as [[[a b] s]|]; [|congruence].
+    destruct ((s =? 1) && (b <? a)); [congruence|]. destruct Hs as (Hq & Hw & _). rewrite Hq in H.
+    inversion H; subst. exact Hw.
+  - destruct (peval env a) as [q1|]; [|discriminate]. destruct (peval env b) as [q2|]; [|discriminate]. cbn [bind].
+    intros H. pose proof (port_add_spec q1 q2 (IHa q1 eq_refl) (IHb q2 eq_refl)) as Hs.
+    destruct (negb (kind_eqb (p_kind q1) (p_kind q2))); [congruence|].
+    destruct (dir_and (p_dir q1) (p_dir q2)); [|congruence]. destruct Hs as [Hq Hw]. rewrite Hq in H.
+    inversion H; subst. exact Hw.
+  - destruct (peval env e) as [q|]; [|discriminate]. cbn [bind]. intros H.
+    destruct (port_invert_spec q (IH q eq_refl)) as [Hq Hw]. rewrite Hq in H. inversion H; subst. exact Hw.
+Qed.
+
+Lemma mk_env_from_wf xs : forall b env, mk_env_from b xs = Ok env -> Forall wf env.
+Proof.
+  induction xs as [|x r IH]; intros b env; cbn [mk_env_from].
+  - intros H; inversion H; constructor.
+  - destruct (mk_base b x) as [p|] eqn:Ep; [|discriminate]. cbn [bind].
+    destruct (mk_env_from (S b) r) as [ps|] eqn:Er; [|discriminate]. cbn [bind]. intros H; inversion H; subst.
+    constructor; [eapply mk_base_wf; eauto|eapply IH; eauto].
+Qed.
+
+(* (p + q)[k] selects from p or from q *)
+Lemma port_add_index p q r k : wf p -> wf q -> port_add p q = Ok r -> 0 <= k < plen r ->
+  exists x, port_index r k = Ok x /\ p_dir x = p_dir r /\
+    if k <? plen p
+    then exists y, port_index p k = Ok y /\ p_refs x = p_refs y /\ p_nrefs x = p_nrefs y /\ p_inv x = p_inv y
+    else exists y, port_index q (k - plen p) = Ok y /\ p_refs x = p_refs y /\ p_nrefs x = p_nrefs y /\ p_inv x = p_inv y.
+Proof.
+  intros Hp Hq Hadd Hk. pose proof (port_add_spec p q Hp Hq) as Hs.
+  destruct (negb (kind_eqb (p_kind p) (p_kind q))) eqn:Ek; [congruence|].
+  destruct (dir_and (p_dir p) (p_dir q)) as [d|]; [|congruence]. cbn zeta in Hs. destruct Hs as [Hr Hwr].
+  rewrite Hr in Hadd. inversion Hadd; subst r. clear Hadd Hr.
+  assert (Hkq : p_kind q = p_kind p) by (destruct (p_kind p), (p_kind q); auto; discriminate).
+  set (r := Port (p_kind p) (p_refs p ++ p_refs q) (p_nrefs p ++ p_nrefs q) (p_inv p ++ p_inv q) d) in *.
+  assert (Hlen : plen r = plen p + plen q) by (unfold plen, zlen, r; cbn [p_refs]; rewrite app_length; lia).
+  pose proof (port_index_spec r k Hwr) as Sr. cbn zeta in Sr.
+  replace ((k <? - plen r) || (plen r <=? k)) with false in Sr by lia.
+  replace (k <? 0) with false in Sr by lia.
+  destruct Sr as (xr & xb & Hxr & Hxb & Hx & _). eexists. split; [exact Hx|]. split; [reflexivity|].
+  cbn [p_refs p_nrefs p_inv]. unfold r in Hxr, Hxb; cbn [p_refs p_inv p_nrefs] in Hxr, Hxb.
+  destruct Hp as [Hp1 Hp2]. destruct Hq as [Hq1 Hq2].
+  destruct (k <? plen p) eqn:E.
+  - pose proof (port_index_spec p k (conj Hp1 Hp2)) as Sp. cbn zeta in Sp.
+    replace ((k <? - plen p) || (plen p <=? k)) with false in Sp by lia.
+    replace (k <? 0) with false in Sp by lia.
+    destruct Sp as (yr & yb & Hyr & Hyb & Hy & _). eexists. split; [exact Hy|]. cbn [p_refs p_nrefs p_inv].
+    assert (Hkl : (Z.to_nat k < length (p_refs p))%nat) by (unfold plen, zlen in E; lia).
+    rewrite nth_error_app1 in Hxr by exact Hkl. rewrite nth_error_app1 in Hxb by (rewrite Hp1; exact Hkl).
+    rewrite Hyr in Hxr. rewrite Hyb in Hxb. inversion Hxr; inversion Hxb; subst.
+    repeat split. unfold r; cbn [p_nrefs]. destruct (p_kind p) eqn:Ekp.
+    + rewrite Hp2. cbn [app]. rewrite Hkq in Hq2. rewrite Hq2. reflexivity.
+    + rewrite Hp2. cbn [app]. rewrite Hkq in Hq2. rewrite Hq2. reflexivity.
+    + rewrite nth_error_app1 by (rewrite Hp2; exact Hkl). reflexivity.
+  - pose proof (port_index_spec q (k - plen p) (conj Hq1 Hq2)) as Sq. cbn zeta in Sq.
+    replace ((k - plen p <? - plen q) || (plen q <=? k - plen p)) with false in Sq by lia.
+    replace (k - plen p <? 0) with false in Sq by lia.
+    destruct Sq as (yr & yb & Hyr & Hyb & Hy & _). eexists. split; [exact Hy|]. cbn [p_refs p_nrefs p_inv].
+    assert (Hkl : (length (p_refs p) <= Z.to_nat k)%nat) by (unfold plen, zlen in E; lia).
+    assert (Hsub : Z.to_nat (k - plen p) = (Z.to_nat k - length (p_refs p))%nat) by (unfold plen, zlen; lia).
+    rewrite nth_error_app2 in Hxr by exact Hkl. rewrite nth_error_app2 in Hxb by (rewrite Hp1; exact Hkl).
+    rewrite Hp1 in Hxb. rewrite <- Hsub in Hxr, Hxb. rewrite Hyr in Hxr. rewrite Hyb in Hxb.
+    inversion Hxr; inversion Hxb; subst. repeat split. unfold r; cbn [p_nrefs]. rewrite Hkq in Hq2.
+    destruct (p_kind p) eqn:Ekp.
+    + rewrite Hp2, Hq2. cbn [app]. destruct (Z.to_nat k), (Z.to_nat (k - plen p)); reflexivity.
+    + rewrite Hp2, Hq2. cbn [app]. destruct (Z.to_nat k), (Z.to_nat (k - plen p)); reflexivity.
+    + rewrite nth_error_app2 by (rewrite Hp2; exact Hkl). rewrite Hp2, <- Hsub. reflexivity.
+Qed.
+
+(* base ports never repeat a wire *)
+Lemma base_refs_nodup b w : NoDup (base_refs b w).
+Proof.
+  unfold base_refs. generalize 0%nat as s. induction w as [|w IH]; intros s; cbn [seq map]; constructor.
+  - intros Hin. apply in_map_iff in Hin. destruct Hin as (j & Hj & Hin). inversion Hj; subst.
+    apply in_seq in Hin. lia.
+  - apply IH.
+Qed.
+
+Lemma base_refs_length b w : length (base_refs b w) = w.
+Proof. unfold base_refs. rewrite map_length, seq_length. reflexivity. Qed.
